@@ -76,7 +76,7 @@ def run(ctx):
         tol = scale * (Decimal("1e-9") + D(extra_rel))
         if abs(got - sigma_exact) > tol:
             ctx.violation(f"C14:{label}:wrong-uncertainty",
-                          f"{label}: uncertainty {result.uncertainty.magnitude!r}, first-order propagation gives {float(sigma_exact)!r} (measurand {float(f_exact)!r})", case)
+                          f"{label}: uncertainty {result.uncertainty.magnitude!r}, first-order propagation gives {core.sf(sigma_exact)!r} (measurand {core.sf(f_exact)!r})", case)
             return
         ctx.count(f"uncertainties_checked/{label}")
 
@@ -119,7 +119,7 @@ def run(ctx):
             conv_rel = (TOL * orc.degree(ul, ur)) if ul is not ur else Fraction(0)
             mtol = max(abs(x), abs(y)) * (Decimal("1e-9") + D(conv_rel) + width)
             if abs(D(result.measurand.magnitude) - f) > mtol:
-                ctx.violation(f"C14:{label}:wrong-measurand", f"{label}: measurand {result.measurand.magnitude!r} {ures}, exact {float(f)!r}", case)
+                ctx.violation(f"C14:{label}:wrong-measurand", f"{label}: measurand {result.measurand.magnitude!r} {ures}, exact {core.sf(f)!r}", case)
             # ... and equals the same operation on the plain quantities
             try:
                 plain = left.measurand + right.measurand if sign > 0 else left.measurand - right.measurand
@@ -169,7 +169,7 @@ def run(ctx):
                     ctx.violation(f"C14:{label}:wrong-unit", f"{label}: unit {ru}, expected {want_unit}", case)
                     return
             if abs(D(result.measurand.magnitude) - f) > abs(f) * Decimal("1e-12"):
-                ctx.violation(f"C14:{label}:wrong-measurand", f"{label}: measurand {result.measurand.magnitude!r}, exact {float(f)!r}", case)
+                ctx.violation(f"C14:{label}:wrong-measurand", f"{label}: measurand {result.measurand.magnitude!r}, exact {core.sf(f)!r}", case)
             compare_sigma(label, result, sigma, f, 0, case)
         return cond
 
@@ -195,7 +195,7 @@ def run(ctx):
             ctx.violation("C14:__pow__:wrong-unit", f"({self!r})**{n}: {result.measurand.unit}", case)
             return
         if abs(D(result.measurand.magnitude) - f) > abs(f) * Decimal("1e-12"):
-            ctx.violation("C14:__pow__:wrong-measurand", f"({self!r})**{n} = {result.measurand.magnitude!r}, exact {float(f)!r}", case)
+            ctx.violation("C14:__pow__:wrong-measurand", f"({self!r})**{n} = {result.measurand.magnitude!r}, exact {core.sf(f)!r}", case)
         compare_sigma("__pow__", result, sigma, f, 0, case)
 
     kt = env.kit
@@ -222,7 +222,7 @@ def run(ctx):
     def express(value, factors):
         u = mdl.eval_real(pools.factors_term(factors))
         lo, hi, _ = orc.unit_size(u)
-        return Q(float(value / ((lo + hi) / 2)), u)
+        return Q(core.sf(value / ((lo + hi) / 2)), u)
 
     def si_mid(q):
         lo, hi, _ = orc.si_value(q.magnitude, q.unit)
@@ -242,11 +242,11 @@ def run(ctx):
         if kind == "int":
             return int(v) if abs(v) >= 1 or v == 0 else 1
         if kind == "float":
-            return float(v)
-        return Decimal(repr(round(float(v), 4)))
+            return core.sf(v)
+        return Decimal(repr(round(core.sf(v), 4)))
 
     def sigma_for(x):
-        ax = abs(float(x)) or 1.0
+        ax = abs(core.sf(x)) or 1.0
         return rng.choice([0, ax * 1e-6, ax * 0.01, ax * 0.3, ax * 2.5, 0.5])
 
     n = ctx.scale(20000, 1_000_000) // 2
@@ -278,7 +278,7 @@ def run(ctx):
         if opname in ("add", "sub") and ub is not ua:
             # keep the two terms comparable in size
             try:
-                amid, _ = si_mid(Q(abs(float(x)) or 1.0, ua))
+                amid, _ = si_mid(Q(abs(core.sf(x)) or 1.0, ua))
                 q = express(amid * Fraction(rng.choice([1, 2, 5, 1]), rng.choice([1, 3])), fb)
                 y = q.magnitude if rng.random() < 0.8 else -q.magnitude
                 if not (1e-30 < abs(y) < 1e30):
@@ -326,7 +326,7 @@ def run(ctx):
                 continue
             lo_u, hi_u, _ = orc.unit_size(q2.unit)
             lo_b, hi_b, _ = orc.unit_size(ub)
-            s2 = float(Fraction(sy if not isinstance(sy, Decimal) else float(sy)) * ((lo_b + hi_b) / 2) / ((lo_u + hi_u) / 2)) if sy else 0
+            s2 = core.sf(Fraction(sy if not isinstance(sy, Decimal) else core.sf(sy)) * ((lo_b + hi_b) / 2) / ((lo_u + hi_u) / 2)) if sy else 0
             B2 = Mt(q2, s2)
             right2 = B2 if isinstance(right, Mt) else q2
             state["case"] = {"op": opname, "side": side, "left": repr(left), "right": repr(right2), "reexpressed_from": repr(right)}
@@ -342,12 +342,12 @@ def run(ctx):
             (va, wa), (vb, wb) = si_mid(q_a), si_mid(q_b)
             ref = max(abs(si_mid(res.measurand)[0]), abs(si_mid(res.uncertainty)[0]), abs(si_mid(Q(x, ua))[0]) if opname in ("add", "sub") else 0)
             deg = orc.degree(res.measurand.unit, res2.measurand.unit)
-            big_y = max(abs(float(y)), abs(float(sy)))
-            big_x = max(abs(float(x)), abs(float(sx)))
+            big_y = max(abs(core.sf(y)), abs(core.sf(sy)))
+            big_x = max(abs(core.sf(x)), abs(core.sf(sx)))
             w_operands = (si_mid(Q(big_x, ua))[1] * 2 + si_mid(Q(big_y, ub))[1] * 2 + si_mid(Q(max(abs(q2.magnitude), abs(s2)), q2.unit))[1] * 2) if opname in ("add", "sub") else 0
             if abs(va - vb) > ref * (TOL * deg + Fraction(1, 10**7)) + wa + wb + w_operands:
                 ctx.violation(f"C14:{opname}:result-depends-on-operand-unit:{what}",
-                              f"{left!r} {opname} {right!r} vs re-expressed {right2!r}: SI {what} {float(va)!r} vs {float(vb)!r}", state["case"])
+                              f"{left!r} {opname} {right!r} vs re-expressed {right2!r}: SI {what} {core.sf(va)!r} vs {core.sf(vb)!r}", state["case"])
     ctx.require("uncertainties_checked/__mul__", 50)
     ctx.require("uncertainties_checked/__add__", 50)
     ctx.require("uncertainties_checked/__pow__", 50)
